@@ -297,22 +297,22 @@ fn one_string(ctx: &mut Ctx, ty: &str, s: &str) {
     }
 }
 
-fn composite(ctx: &mut Ctx, r: &mut Rng) {
-    // Location / Weather / Params documents embedding the six types
+/// a Location document with the four numbers written as Rust prints them
+fn location_doc(ctx: &mut Ctx, la: f64, lo: f64, el: f64, g: f64) {
     ctx.eval();
-    let (la, lo, el, g) = (r.range(-100., 100.), r.range(-200., 200.), r.range(-600., 9500.), r.range(-14., 14.));
     let doc = format!(r#"{{"coords":{{"latitude":{:?},"longitude":{:?},"elevation":{:?}}},"gmt":{:?}}}"#, la, lo, el, g);
+    let input = json!({"kind": "document", "doc_type": "Location", "doc": doc, "values": [hx(la), hx(lo), hx(el), hx(g)]});
     let ok = la.abs() <= 90. && lo.abs() <= 180. && (-420. ..=8848.).contains(&el) && g.abs() <= 12.;
     let got = catch_unwind(AssertUnwindSafe(|| serde_json::from_str::<Location>(&doc)));
     ctx.nontrivial(&doc);
     match got {
-        Err(_) => ctx.fail(json!({"kind": "document", "doc": doc}), "panic".into(), "Ok or Err".into()),
+        Err(_) => ctx.fail(input, "panic".into(), "Ok or Err".into()),
         Ok(x) => {
             if x.is_ok() != ok {
-                ctx.fail(json!({"kind": "document", "doc": doc}), format!("Location accepted = {}", x.is_ok()), format!("accepted = {}", ok));
+                ctx.fail(input, format!("Location accepted = {}", x.is_ok()), format!("accepted = {}", ok));
             } else if let Ok(l) = x {
                 if f64::from(l.coords.latitude).to_bits() != la.to_bits() || f64::from(l.gmt).to_bits() != g.to_bits() {
-                    ctx.fail(json!({"kind": "document", "doc": doc}), "values differ from the text".into(), "bit-identical".into());
+                    ctx.fail(input, "values differ from the text".into(), "bit-identical".into());
                 } else {
                     // an accepted value reads back bit-identical: written out and read in again
                     let back = catch_unwind(AssertUnwindSafe(|| serde_json::to_string(&l).ok().and_then(|t| serde_json::from_str::<Location>(&t).ok())));
@@ -322,38 +322,63 @@ fn composite(ctx: &mut Ctx, r: &mut Rng) {
                             && f64::from(l2.coords.longitude).to_bits() == lo.to_bits()
                             && f64::from(l2.coords.elevation).to_bits() == el.to_bits()
                             && f64::from(l2.gmt).to_bits() == g.to_bits() => {}
-                        other => ctx.fail(json!({"kind": "document", "doc": doc}), format!("written out and read back: {:?}", other), "bit-identical".into()),
+                        other => ctx.fail(input, format!("written out and read back: {:?}", other), "bit-identical".into()),
                     }
                 }
             }
         }
     }
+}
+
+fn weather_doc(ctx: &mut Ctx, p: f64, t: f64) {
     ctx.eval();
-    let (p, t) = (r.range(0., 1200.), r.range(-120., 80.));
     let doc = format!(r#"{{"pressure":{:?},"temperature":{:?}}}"#, p, t);
+    let input = json!({"kind": "document", "doc_type": "Weather", "doc": doc, "values": [hx(p), hx(t)]});
     let ok = (100. ..=1050.).contains(&p) && (-90. ..=57.).contains(&t);
     match catch_unwind(AssertUnwindSafe(|| serde_json::from_str::<Weather>(&doc))) {
-        Err(_) => ctx.fail(json!({"kind": "document", "doc": doc}), "panic".into(), "Ok or Err".into()),
+        Err(_) => ctx.fail(input, "panic".into(), "Ok or Err".into()),
         Ok(x) => {
             if x.is_ok() != ok {
-                ctx.fail(json!({"kind": "document", "doc": doc}), format!("Weather accepted = {}", x.is_ok()), format!("accepted = {}", ok));
+                ctx.fail(input, format!("Weather accepted = {}", x.is_ok()), format!("accepted = {}", ok));
             }
         }
     }
-    // Params with a nearest-latitude policy
+}
+
+fn params_doc(ctx: &mut Ctx, nl: f64) {
     ctx.eval();
-    let nl = r.range(-120., 120.);
     let mut params = Params::new(Method::Isna);
     params.extreme_latitude_method = ExtremeLatitudeMethod::NearestLatitudeFajrIshaAlways(NEAREST_LATITUDE);
     let doc = serde_json::to_string(&params).unwrap().replace("48.5", &format!("{:?}", nl));
+    let input = json!({"kind": "document", "doc_type": "Params", "doc": doc, "values": [hx(nl)]});
     match catch_unwind(AssertUnwindSafe(|| serde_json::from_str::<Params>(&doc))) {
-        Err(_) => ctx.fail(json!({"kind": "document", "doc": doc}), "panic".into(), "Ok or Err".into()),
+        Err(_) => ctx.fail(input, "panic".into(), "Ok or Err".into()),
         Ok(x) => {
             if x.is_ok() != (nl.abs() <= 90.) {
-                ctx.fail(json!({"kind": "document", "doc": doc}), format!("Params accepted = {}", x.is_ok()), format!("accepted = {}", nl.abs() <= 90.));
+                ctx.fail(input, format!("Params accepted = {}", x.is_ok()), format!("accepted = {}", nl.abs() <= 90.));
             }
         }
     }
+}
+
+/// replay of a recorded document case
+fn document_replay(ctx: &mut Ctx, v: &Value) {
+    let vals: Vec<f64> = v.get("values").and_then(|x| x.as_array()).map(|a| {
+        a.iter().filter_map(|t| t.as_str()).filter_map(|t| u64::from_str_radix(t, 16).ok()).map(f64::from_bits).collect()
+    }).unwrap_or_default();
+    match (v.get("doc_type").and_then(|x| x.as_str()), vals.len()) {
+        (Some("Location"), 4) => location_doc(ctx, vals[0], vals[1], vals[2], vals[3]),
+        (Some("Weather"), 2) => weather_doc(ctx, vals[0], vals[1]),
+        (Some("Params"), 1) => params_doc(ctx, vals[0]),
+        _ => {}
+    }
+}
+
+fn composite(ctx: &mut Ctx, r: &mut Rng) {
+    // Location / Weather / Params documents embedding the six types
+    location_doc(ctx, r.range(-100., 100.), r.range(-200., 200.), r.range(-600., 9500.), r.range(-14., 14.));
+    weather_doc(ctx, r.range(0., 1200.), r.range(-120., 80.));
+    params_doc(ctx, r.range(-120., 120.));
 }
 
 pub fn c18(ctx: &mut Ctx, tier: &str, r: &mut Rng, js: &[Value], _reqs: &[String], replay_only: bool) {
@@ -365,6 +390,9 @@ pub fn c18(ctx: &mut Ctx, tier: &str, r: &mut Rng, js: &[Value], _reqs: &[String
         }
         if let Some(s) = v.get("text").and_then(|x| x.as_str()) {
             one_string(ctx, ty, s);
+        }
+        if v.get("kind").and_then(|x| x.as_str()) == Some("document") {
+            document_replay(ctx, v);
         }
     }
     if replay_only {
